@@ -519,6 +519,9 @@ func (s *w7Source) opEditGroup() string {
 		}
 		return "noop"
 	}
+	if s.w.c.Intn(3, "group_resave") == 2 {
+		return "save group unchanged " + w7EvStr(s.saveGroup(g)) // same data, new version and time
+	}
 	g.spec.Weight = w7Next(s.w.c, g.spec.Weight, []float64{1, 2, 3}, "weight")
 	return "edit group " + w7EvStr(s.saveGroup(g))
 }
@@ -533,10 +536,13 @@ func (s *w7Source) opNamespace() string {
 		return "create namespace " + w7EvStr(s.saveNS(n))
 	}
 	n := s.nss[c.Intn(len(s.nss), "ns")]
-	if c.Intn(2, "ns_field") == 0 {
+	switch c.Intn(3, "ns_field") {
+	case 0:
 		n.spec.Weight = w7Next(c, n.spec.Weight, []float64{1, 2, 3}, "weight")
-	} else {
+	case 1:
 		n.spec.Disable = !n.spec.Disable
+	default:
+		return "save namespace unchanged " + w7EvStr(s.saveNS(n))
 	}
 	return "edit namespace " + w7EvStr(s.saveNS(n))
 }
